@@ -940,8 +940,9 @@ func (api *CarBackend) Head(ctx context.Context, p path.ImmutablePath) (ContentP
 					return fmt.Errorf("unable to get reset UnixFS file reader: %w", err)
 				}
 
+				// io.ReadAll reports a read that ended with io.EOF as a nil error
 				out, err := io.ReadAll(io.LimitReader(f, 3072))
-				if errors.Is(err, io.EOF) {
+				if err == nil || errors.Is(err, io.EOF) {
 					n = NewHeadResponseForFile(files.NewBytesFile(out), fileSize)
 					return nil
 				}
